@@ -502,6 +502,13 @@ func run(c *engine.Ctx) {
 		if c.Expired() {
 			return
 		}
+		// a deref()-rooted (or current()-rooted) path first, another path behind it: what the first
+		// path leaves on the path stack must not become the start of the second
+		for _, q := range second {
+			exec("deref(../r)/" + p + " = " + q)
+			exec("current()/" + p + " != " + q)
+			exec("deref(current()/../r)/" + p + " = " + q + " and " + q)
+		}
 		exec("../ll = 'v' and " + p + " = 'v'")
 		exec(p + " = 'v' or ../ll = 'w'")
 		exec("not(../ll = 'zz') and /" + p)
